@@ -386,6 +386,80 @@ def r158(ctx):
                     construct=f"Path.{name}: new path not created under self.maxlen")
 
 
+def _paste_local_lists_form(ctx, rid, f, pb, pf, ov, lb, lf):
+    """paste_paths written over two local frame lists:
+        back = path_back.phasepoints; forw = path_forw.phasepoints
+        if overlap: forw = forw[1:]
+        for p in reversed(back): append ...;  for p in forw: append ...
+    Decided from the definitions that reach the loops: the backward list is always the whole backward
+    segment; the forward list is the segment without its first frame on every path on which `overlap`
+    holds and the whole segment on every other path. Returns False when the function is not of this form."""
+    itb, itf = lb.iter, lf.iter
+    if isinstance(itb, ast.Call) and last_name(itb) == "reversed" and itb.args:
+        itb = itb.args[0]
+    else:
+        return False
+    if not (isinstance(itb, ast.Name) and isinstance(itf, ast.Name)):
+        return False
+    fl = flow_of(f)
+    cfg = fl.cfg
+
+    def kind(v, seg):
+        if v is None:
+            return "?"
+        t = ast.unparse(v).replace(" ", "")
+        if t in (f"{seg}.phasepoints", f"{seg}.phasepoints[:]", f"list({seg}.phasepoints)"):
+            return "whole"
+        if t in (f"{seg}.phasepoints[1:]",):
+            return "tail"
+        if isinstance(v, ast.Subscript) and isinstance(v.value, ast.Name) and isinstance(v.slice, ast.Slice) and v.slice.upper is None and v.slice.step is None and isinstance(v.slice.lower, ast.Constant) and v.slice.lower.value == 1:
+            return "tail-of:" + v.value.id
+        return "other:" + t
+
+    ok = True
+    # backward list
+    for d, sfx in fl.rd(itb.id, cfg.node_of(lb)):
+        k = kind(d.value if isinstance(d.value, ast.AST) else None, pb)
+        if k != "whole":
+            g = [(ast.unparse(e), t) for e, t, bn in cfg.guards(d.at)]
+            ctx.bad(rid, d.stmt if d.stmt is not None else lb, f"paste_paths pastes `{short(d.value, 40) if isinstance(d.value, ast.AST) else '?'}` instead of the backward segment when {g}: the pasted path does not begin with the last backward frame (a backward segment that consists of the shared point only is dropped, the path starts with the forward segment's first frame and its velocity flag)",
+                    construct="paste_paths: backward frame list replaced")
+            ok = False
+    # forward list: definitions reaching the loop
+    defs = list(fl.rd(itf.id, cfg.node_of(lf)))
+    whole = [d for d, _ in defs if kind(d.value if isinstance(d.value, ast.AST) else None, pf) == "whole"]
+    tails = [d for d, _ in defs if kind(d.value if isinstance(d.value, ast.AST) else None, pf) in ("tail", "tail-of:" + itf.id)]
+    other = [d for d, _ in defs if d not in whole and d not in tails]
+    if other or not whole:
+        return False
+    ovl_true = [n for n in cfg.nodes if n.kind == "branch" and any(ast.unparse(e) == ov and t for e, t in n.facts)]
+    tail_nodes = [d.at for d in tails]
+    for d in tails:
+        g = [(ast.unparse(e), t) for e, t, bn in cfg.guards(d.at)]
+        if (ov, True) not in g:
+            ctx.bad(rid, d.stmt, f"paste_paths drops the first forward frame (`{short(d.stmt, 40)}`) on a path on which `{ov}` need not hold: a frame is lost when the segments do not overlap", construct="paste_paths: forward tail without overlap")
+            ok = False
+    leak = [b for b in ovl_true if cfg.reaches(b, cfg.node_of(lf), avoid=tail_nodes)]
+    if not tails:
+        ctx.bad(rid, lf, f"paste_paths never drops the shared point: with `{ov}` the pasted path contains it twice", construct="paste_paths: shared point kept twice")
+        ok = False
+    elif leak:
+        ctx.bad(rid, lf, f"with `{ov}` true the forward loop of paste_paths can be reached without the first forward frame having been dropped (a path through the `{ov}` branch avoids `{short(tails[0].stmt, 40)}`): the shared point is pasted twice, or - when the other branch empties the backward list - the path starts with the forward segment's copy of it",
+                construct="paste_paths: overlap branch keeps the whole forward list")
+        ok = False
+    if ok:
+        ctx.ok(rid, lb, "the backward frame list is the whole backward segment, visited in reverse")
+        ctx.ok(rid, lf, f"the forward frame list is the segment without its first frame exactly on the paths on which `{ov}` holds")
+    # appends through Path.append with the limit test: left to the remaining clauses when the loops have that shape
+    for L in (lb, lf):
+        apps = [c for c in ast.walk(L) if isinstance(c, ast.Call) and isinstance(c.func, ast.Attribute) and c.func.attr == "append" and c.args and isinstance(c.args[0], ast.Name) and isinstance(L.target, ast.Name) and c.args[0].id == L.target.id]
+        if not apps:
+            ctx.bad(rid, L, "a loop of paste_paths does not append the frame it visits", construct="paste_paths: loop without append")
+        else:
+            ctx.ok(rid, apps[0], "every visited frame is appended through Path.append (limit test applies)")
+    return True
+
+
 def r153(ctx):
     """paste_paths: backward segment reversed, then the forward segment minus exactly one shared
     point iff `overlap`; every visited frame is appended; Path.append refuses at the limit."""
@@ -403,6 +477,8 @@ def r153(ctx):
     if len(loops) != 2:
         raise AnalysisError(f"R-15.3: paste_paths has {len(loops)} top-level loops (expected 2: backward, forward)")
     lb, lf = loops
+    if _paste_local_lists_form(ctx, rid, f, pb, pf, ov, lb, lf):
+        return
     def loop_parts(L):
         """(element variable, index variable or None, iterated expression without enumerate)."""
         it, tgt, idx = L.iter, L.target, None
@@ -707,7 +783,7 @@ def r156(ctx):
 def run(ctx):
     ctx.rule("R-15.2", "optional interface parameters of the classification functions are tested with `is None`, never by truthiness (an interface at 0.0 is a legal value)", floor=2)
     ctx.rule("R-15.4", "crossing test and start/end classifiers agree on a frame exactly on an interface (inclusive end point <=> inclusive upper bound of `min < l <= max`)", floor=2)
-    ctx.rule("R-15.3", "paste_paths: reversed backward segment, then the forward segment minus exactly its first frame iff overlap; every visited frame appended; Path.append refuses at the limit (length = len(back) + len(forward) - shared, truncated at maxlen)", floor=6)
+    ctx.rule("R-15.3", "paste_paths: reversed backward segment, then the forward segment minus exactly its first frame iff overlap; every visited frame appended; Path.append refuses at the limit (length = len(back) + len(forward) - shared, truncated at maxlen)", floor=4)
     ctx.rule("R-15.1", "copy / reverse / += add fresh frame copies; reverse mutates only the new path; System.copy returns a new object; flag toggle is an involution", floor=10)
     ctx.attempt(r151, ctx)
     ctx.attempt(r152, ctx)
@@ -724,6 +800,8 @@ def run(ctx):
 
 
 VARIANTS = [
+    B("c15-single-frame-backward-segment-dropped", PATH, "    for phasepoint in reversed(path_back.phasepoints):\n        app = new_path.append(phasepoint)", "    back_points = path_back.phasepoints\n    forw_points = path_forw.phasepoints\n    if overlap:\n        if len(back_points) > 1:\n            forw_points = forw_points[1:]\n        else:\n            back_points = []\n    for phasepoint in reversed(back_points):\n        app = new_path.append(phasepoint)", "R-15.3", control=True, also=[(PATH, "    first = True\n    for phasepoint in path_forw.phasepoints:\n        if first and overlap:\n            first = False\n            continue\n", "    for phasepoint in forw_points:\n")], why="seeded C15_p"),
+    K("c15-keep-paste-over-local-frame-lists", PATH, "    for phasepoint in reversed(path_back.phasepoints):\n        app = new_path.append(phasepoint)", "    back_points = path_back.phasepoints\n    forw_points = path_forw.phasepoints\n    if overlap:\n        forw_points = forw_points[1:]\n    for phasepoint in reversed(back_points):\n        app = new_path.append(phasepoint)", also=[(PATH, "    first = True\n    for phasepoint in path_forw.phasepoints:\n        if first and overlap:\n            first = False\n            continue\n", "    for phasepoint in forw_points:\n")], why="the same rewriting without the special case"),
     B("c15-shared-point-skipped-by-identity", PATH, "    first = True\n    for phasepoint in path_forw.phasepoints:\n        if first and overlap:\n            first = False\n            continue\n", "    shared = None\n    if overlap and path_forw.length > 0:\n        shared = path_forw.phasepoints[0]\n    for phasepoint in path_forw.phasepoints:\n        if phasepoint is shared:\n            continue\n", "R-15.3", why="seeded C15_o: every later occurrence of that frame object is dropped too"),
     K("c15-keep-shared-point-skipped-by-position", PATH, "    first = True\n    for phasepoint in path_forw.phasepoints:\n        if first and overlap:\n            first = False\n            continue\n", "    for position, phasepoint in enumerate(path_forw.phasepoints):\n        if position == 0 and overlap:\n            continue\n", why="first iteration by index"),
     B("c15-copy-filled-under-the-default-limit", PATH, "        new_path = self.empty_path(maxlen=self.maxlen)\n        for phasepoint in self.phasepoints:", "        new_path = self.empty_path()\n        for phasepoint in self.phasepoints:", "R-15.8", control=True, why="seeded C15_n"),
